@@ -5,6 +5,9 @@ cd /repo && git apply "$p" || { echo "patch does not apply"; exit 3; }
 cd /verif
 for id in "$@"; do
   echo "=== $id against $(basename $(dirname $p))/$(basename $p)"
-  ./check "$id" 2>&1 | grep -E "^VIOLATION|^  what|^\[$id\]|^INCONCLUSIVE|KNOWN" | cut -c1-400 | head -12
+  ./check "$id" > /tmp/try_seed_$$.out 2>&1
+  grep -E "^VIOLATION|^  what|KNOWN" /tmp/try_seed_$$.out | cut -c1-400 | head -6
+  grep -E "^\[$id\]|^INCONCLUSIVE" /tmp/try_seed_$$.out | cut -c1-400
 done
+rm -f /tmp/try_seed_$$.out
 git -C /repo checkout -- . ; git -C /repo clean -fdq -e target
